@@ -120,6 +120,21 @@ class Assign(H.RequestAdapter):
             req_args.method = 'OPTIONS'
 
 
+class KeyInPath(H.RequestAdapterAddPathPrefix):
+    """an authentication scheme of the application's own: the key travels in the path, and the adapter wants to
+    see the responses (as the token-refreshing adapters of real services do)"""
+    AUTH_TYPE = "key-in-path"
+
+    def __init__(self, tag, log):
+        super().__init__("/key/K")
+        self.tag = tag
+        self.log = log
+
+    def process_response(self, rv):
+        self.log.append(self.tag)
+        return rv
+
+
 RESPONSE = {"r": 1, "zero": 0, "empty": [], "none": None, "txt": ""}
 
 
@@ -152,10 +167,21 @@ class MA(MCallerHttp):
         return self.call_b(**kw)
 
 
+    @method_http(None, 'ca')
+    def call_lazy(self, **kw):
+        """a wrapper written as a generator: the request is sent when the caller takes the result"""
+        yield self.get_conn().post("/m/l", **kw)
+
+
 class MB(MCallerHttp):
     @method_http(None, 'cb')
     def call_b(self, **kw):
         return self.get_conn().get("m/b", **kw)
+
+    @method_http(None, 'cb')
+    def call_takes_lazy(self, **kw):
+        """a wrapper of component 'cb' that takes the result of the lazy wrapper of component 'ca'"""
+        return next(self.call_lazy(**kw))
 
     @method_http
     def call_c(self, **kw):
@@ -186,8 +212,12 @@ def build(rng, log):
         r = rng.random()
         if r < 0.25 and not auth_used:
             auth_used = True
-            kind = rng.choice(['b', 'c', 't'])
-            if kind == 'b':
+            kind = rng.choice(['b', 'c', 't', 'k'])
+            if kind == 'k':
+                tag = "k%d" % rng.randrange(10 ** 6)
+                conn = H.HttpConn(conn, adapters=[KeyInPath(tag, log)])
+                layers.append([('prefix', "/key/K"), ('rec', tag)])
+            elif kind == 'b':
                 conn = H.BAuthConn(conn, "us:er", "p@ss é")
                 layers.append([('auth', "Basic", "us:er:p@ss é")])
             elif kind == 'c':
@@ -483,11 +513,16 @@ def _run_history(ctx, rng, case):
                                                ("call_a", [[('prefix', '/cmpA')]], "/m/a", "POST"),
                                                ("call_same", [[('prefix', '/cmpA')]], "/m/s", "POST"),
                                                ("call_nested", [], "m/b", "GET"),
+                                               ("call_lazy", [[('prefix', '/cmpA')]], "/m/l", "POST"),
+                                               ("call_takes_lazy", [[('prefix', '/cmpA')]], "/m/l", "POST"),
                                                ("call_c", [], "/m/c", "PUT")):
                 del log[:]
                 steps.append([tag, name])
                 try:
-                    getattr(mc, name)()
+                    res = getattr(mc, name)()
+                    if name == "call_lazy":
+                        next(res)       # (plain code takes the result of the lazy wrapper)
+                        ctx.count("lazy_wrappers_consumed")
                 except Exception as err:
                     fail("method-caller-raises", {"step": tag, "method": name, "type": type(err).__name__,
                                                   "msg": str(err)[:150]})
